@@ -392,6 +392,25 @@ prop('C18', level='other', units=[DF + 'drop_samples_df', DF + 'limit_df', DF + 
                  'number i * n1 + j), a wrong label count raises ValueError. Bounded: all of these again on small grids, off-grid and '
                  'large-index windows; what concat and a scalar column assignment do inside pandas.')
 
-prop('C20', level='other', units=[], jobs=['plots', 'limit_df', 'limit_signal'],
-     explanation='Bounded: the arguments handed to the external drawing routines (ghost log by interception) on corpus tables x '
-                 'sample-grid windows incl. low-truncating grid points; rendered artists are not inspected.')
+PL = 'bycycle.plts.cyclepoints.'
+prop('C20', level='other', units=[PL + 'plot_cyclepoints_array', PL + 'plot_cyclepoints_df'], jobs=['plots', 'limit_df', 'limit_signal'],
+     unit_jobs={PL + 'plot_cyclepoints_array': ['plots'], PL + 'plot_cyclepoints_df': ['plots']},
+     trusted=['neurodsp.plts.plot_time_series: nothing is assumed about it; its calls and arguments are logged as ghost state and '
+              'the contracts state what is handed to it (a call with ls=\'\' is "the marker call"); the @savefig decorator is dropped',
+              'np.unique(a): strictly increasing, every entry occurs in a, every entry of a occurs in it (assumed library contract)'],
+     assumptions=['the time grid np.arange(0, n / fs, 1 / fs) is taken as the exact grid i / fs over the reals and (i / fs) * fs as i: the '
+                  'floating-point behaviour of the grid (where D10, D12 - D14 lived) is NOT covered by the deductive part; it stays with '
+                  'the bounded job'],
+     explanation='Proved, WITHOUT x-limits, for every signal, rate and cyclepoint arrays: plot_cyclepoints_array (10 typed cases: which '
+                 'kinds are given, plot_sig) hands the marker call one (x, y) series per given kind, in the order peaks / troughs / '
+                 'rises / decays, and the series of a kind consists of cyclepoints of that kind only, in order, each at (sample / fs, '
+                 'signal value at that sample), including every cyclepoint strictly inside the view (whether one exactly on the first '
+                 'or last sample is drawn is left open: four boundary conventions); all indexing in range. plot_cyclepoints_df (10 '
+                 'cases: both centrings x the kind switches x plot_sig) passes to the array version the centre extremum column of the '
+                 'table\'s own centring as first kind, the sorted union of the opening and closing side extrema as second kind (each '
+                 'value once, nothing else), the rise / decay columns as third / fourth, None for a kind switched off, and the '
+                 'signal, rate and limits unchanged - the trough-centred column names of the statement. '
+                 'Bounded only: everything under x-limits (index shift, windows, D12 - D14), plot_burst_detect_summary / _param / '
+                 'Bycycle.plot (burst mask, parameter panels, threshold lines): the arguments handed to the drawing routines are '
+                 'intercepted on corpus tables x sample-grid windows incl. low-truncating grid points and windows on cycle '
+                 'boundaries; rendered artists are not inspected.')
